@@ -7,7 +7,8 @@ Sources: runtime/timed/queue.go, executor.go, taskexecutor.go, heapkey.go, ds/ge
 `container/heap`.  The model is the code **after** the `fix:` commits listed in
 `known_findings/C18.json`.
 
-* `Heap`: the slice of `generalheap.Heap` with `container/heap`'s `up`/`down`; `Less` is
+* `Heap`: the slice of `generalheap.Heap` with `container/heap`'s `up`/`down` (structural recursion
+  on a round counter that is initialised with the heap length, which is always enough); `Less` is
   `HeapKey.CompareTo < 0` (earlier time first).  `pop`/`removeAt` cut the last slot off *before*
   sifting instead of after (the sift never touches that slot, so the result is the same array).
   The `index` field of an element is modelled as "position of the element with this serial".
@@ -59,36 +60,27 @@ def swap (h : List Elem) (i j : Nat) : List Elem :=
   | some a, some b => (h.set i b).set j a
   | _, _ => h
 
-/-- `container/heap.up`. -/
-def up (h : List Elem) (j : Nat) : List Elem :=
-  if _h0 : j = 0 then h
-  else if lessAt h j ((j - 1) / 2) then up (swap h ((j - 1) / 2) j) ((j - 1) / 2) else h
-termination_by j
-decreasing_by omega
+/-- `container/heap.up` (`fuel` bounds the number of rounds; the heap length is always enough). -/
+def up : Nat → List Elem → Nat → List Elem
+  | 0, h, _ => h
+  | fuel + 1, h, j =>
+    if j = 0 then h
+    else if lessAt h j ((j - 1) / 2) then up fuel (swap h ((j - 1) / 2) j) ((j - 1) / 2) else h
 
 /-- The child `down` compares with. -/
 def child (h : List Elem) (i n : Nat) : Nat :=
   if 2 * i + 2 < n ∧ lessAt h (2 * i + 2) (2 * i + 1) = true then 2 * i + 2 else 2 * i + 1
 
-theorem child_gt (h : List Elem) (i n : Nat) : i < child h i n := by
-  unfold child; split <;> omega
-
-theorem child_lt (h : List Elem) (i n : Nat) (hn : 2 * i + 1 < n) : child h i n < n := by
-  unfold child; split <;> omega
-
 /-- `container/heap.down(i, n)`; also returns the final position (`down` reports `i > i0`). -/
-def down (h : List Elem) (i n : Nat) : List Elem × Nat :=
-  if hn : 2 * i + 1 < n then
-    if lessAt h (child h i n) i then down (swap h i (child h i n)) (child h i n) n else (h, i)
-  else (h, i)
-termination_by n - i
-decreasing_by
-  have := child_gt h i n
-  have := child_lt h i n hn
-  omega
+def down : Nat → List Elem → Nat → Nat → List Elem × Nat
+  | 0, h, i, _ => (h, i)
+  | fuel + 1, h, i, n =>
+    if 2 * i + 1 < n then
+      if lessAt h (child h i n) i then down fuel (swap h i (child h i n)) (child h i n) n else (h, i)
+    else (h, i)
 
 /-- `heap.Push`. -/
-def push (h : List Elem) (e : Elem) : List Elem := up (h ++ [e]) h.length
+def push (h : List Elem) (e : Elem) : List Elem := up (h.length + 1) (h ++ [e]) h.length
 
 /-- `heap.Pop`: the root, and the remaining heap. -/
 def pop (h : List Elem) : Option (Elem × List Elem) :=
@@ -97,7 +89,7 @@ def pop (h : List Elem) : Option (Elem × List Elem) :=
   | e :: rest =>
     match rest.getLast? with
     | none => some (e, [])
-    | some last => some (e, (down (last :: rest.dropLast) 0 rest.length).1)
+    | some last => some (e, (down rest.length (last :: rest.dropLast) 0 rest.length).1)
 
 /-- `heap.Remove(i)`: the element at `i`, and the remaining heap. -/
 def removeAt (h : List Elem) (i : Nat) : Option (Elem × List Elem) :=
@@ -105,8 +97,8 @@ def removeAt (h : List Elem) (i : Nat) : Option (Elem × List Elem) :=
   | some e, some last =>
     if i = h.length - 1 then some (e, h.dropLast)
     else
-      let r := down (h.dropLast.set i last) i (h.length - 1)
-      some (e, if r.2 > i then r.1 else up r.1 i)
+      let r := down h.length (h.dropLast.set i last) i (h.length - 1)
+      some (e, if r.2 > i then r.1 else up h.length r.1 i)
   | _, _ => none
 
 /-- `rawElem.Index()` of the element with this serial (`none`: -1). -/
